@@ -272,7 +272,10 @@ def _generate_mask(vertices, x, y):
 
     xxyy = truenp.stack((xx, yy), axis=2)
     # use delaunay to fill from the vertices and produce a mask
-    triangles = spatial.Delaunay(vertices, qhull_options='QJ Qf')
+    # SciPy's default Qhull options (Qbb Qc Qz, triangulated output) handle the
+    # cocircular vertices of a regular polygon and also a bare triangle;
+    # 'QJ Qf' without Qz cannot build the initial simplex from three points
+    triangles = spatial.Delaunay(vertices)
     mask = ~(triangles.find_simplex(xxyy) < 0)
     return mask
 
